@@ -66,6 +66,7 @@ try:
                 replay = json.loads(json.dumps(replay)[:4000]) if len(json.dumps(replay)) < 4000 else {"truncated": json.dumps(replay)[:1500]}
             except Exception as e:
                 replay = {"unreadable": str(e)}
+        lines = viol + [l for l in lines if not l.startswith("VIOLATION")]
         res["checks"][p] = {"rc": r.returncode, "lines": lines[:8], "wall_s": round(time.time() - t0), "first_replay": replay}
         print(p, "rc=%d" % r.returncode, [l[:160] for l in viol[:3]] or lines[:2])
     res["caught"] = any(c["rc"] == 1 and any(l.startswith("VIOLATION") for l in c["lines"]) for c in res["checks"].values())
